@@ -21,7 +21,7 @@ MANIFEST = dict(
     technique="hash-order taint: source census of HashMap/HashSet iteration + terminal-sink classification over resolved HIR; who-may-call rule for ambient sources",
 )
 
-HASH_TY = re.compile(r"^std::collections::(hash::map::)?Hash(Map|Set)\b|^std::collections::hash_(map|set)::")
+HASH_TY = re.compile(r"^std::collections::hash::(map::HashMap|set::HashSet)\b|^hashbrown::")
 ITER_METHODS = {"iter", "iter_mut", "keys", "values", "values_mut", "into_iter", "drain", "into_keys", "into_values"}
 INSENSITIVE_TERMINALS = {"min", "max", "sum", "count", "all", "any", "len", "is_empty", "product"}
 ORDERED_TARGETS = ("HashMap<", "HashSet<", "BTreeMap<", "BTreeSet<")
@@ -31,7 +31,7 @@ AMBIENT_PREFIXES = ("std::time::", "std::env::", "std::thread::", "std::process:
 
 
 def is_hash_ty(t):
-    return bool(HASH_TY.match(strip_ty(t))) or bool(re.match(r"^std::collections::Hash(Map|Set)", strip_ty(t)))
+    return bool(HASH_TY.match(strip_ty(t)))
 
 
 def closure_impure(c):
@@ -78,7 +78,7 @@ def run(F, rep, tier):
                 if isinstance(p, dict) and p.get("e") is not None:
                     n_fmt += 1
                     t = p["e"].get("ty", "")
-                    if "HashMap<" in t or "HashSet<" in t:
+                    if "HashMap<" in t or "HashSet<" in t:  # any path ending in HashMap/HashSet
                         rep.ob("HASH-fmt", "%s|%s" % (fname, _short(t)), False,
                                "a hash collection is formatted into text (iteration order is seed-dependent)", line_of(call))
         # ---- ambient sources
@@ -157,8 +157,8 @@ def classify(rep, fname, src, parents):
     m = term["m"]
     if m == "collect":
         target = (term.get("gargs") or ["", ""])[-1]
-        ordered_ok = target.startswith(("std::collections::HashMap<", "std::collections::HashSet<",
-                                        "std::collections::BTreeMap<", "std::collections::BTreeSet<"))
+        ordered_ok = target.startswith(("std::collections::hash::map::HashMap<", "std::collections::hash::set::HashSet<",
+                                        "alloc::collections::btree::map::BTreeMap<", "alloc::collections::btree::set::BTreeSet<"))
         if ordered_ok and not impure:
             rep.ob("HASH", key, True, "collected into %s with pure closures: order-insensitive" % _short(target), where)
         elif ordered_ok:
